@@ -8,10 +8,11 @@ import subprocess
 import tempfile
 from . import common as C
 
-OCAML = ["c15"]
-GO = ["c15"]
+OCAML = ["c15", "c15w"]
+GO = ["c15", "c15w"]
 PROP = "props/C15.v"
-PROOFS = ["proofs/ChainRef.v", "proofs/ChainTrace.v", "proofs/ChainWriter.v", "proofs/ChainMain.v", "model/Chain.v"]
+PROOFS = ["proofs/ChainRef.v", "proofs/ChainTrace.v", "proofs/ChainWriter.v", "proofs/ChainMain.v", "model/Chain.v",
+          "proofs/RWriterProofs.v", "model/RWriter.v"]
 
 # witness of the defect repaired by /repo commit d237067 (C15_fixed_invalid_status): replayed on every run,
 # it must now be accepted (model = implementation) with the property holding on the implementation
@@ -202,6 +203,68 @@ def witness_leg(run):
     run.coverage["fixed_witness"] = {"prog": ps, "impl": impl, "property_holds": not fails, "model_agrees": not mism}
 
 
+def writer_leg(run):
+    """Wrapper over a scripted underlying writer (model/RWriter.v): differential run + the property evaluated
+    on what the scripted writer really received."""
+    n = 400000 if run.tier == "thorough" else 40000
+    corpus = os.path.join(C.VERIF, "corpus", "C15", "writer_ops.txt")
+    outs = []
+    if os.path.exists(corpus):
+        outs.append(C.sh([os.path.join(C.BIN, "c15w"), "-file", corpus])[1])
+    outs.append(C.sh([os.path.join(C.BIN, "c15w"), "-n", str(n), "-seed", str(run.seed)], timeout=900)[1])
+    raw = "".join(outs)
+    p = subprocess.run([os.path.join(C.BIN, "c15w_model")], input=raw.encode(), stdout=subprocess.PIPE)
+    out = p.stdout.decode("utf-8", "replace")
+    how = "echo '<ops>' > f; build/bin/c15w -file f | build/bin/c15w_model"
+    pf = [l.split("\t") for l in raw.splitlines() if l.startswith("PROPFAIL")]
+    pf.sort(key=lambda t: len(t[1]))
+    failing = set()
+    for t in pf[:10]:
+        failing.add(t[1])
+        run.violation("writer:%s" % t[1], {"writer_ops": t[1], "property_failures": t[2], "how": how},
+                      "%s  [underlying-writer script %s]" % (t[2], t[1]))
+    mm = [l.split("\t") for l in out.splitlines() if l.startswith("MISMATCH")]
+    mm.sort(key=lambda t: len(t[2]))
+    k = 0
+    for t in mm:
+        if t[2] in failing or any(x[1] == t[2] for x in pf):
+            continue
+        run.violation("corr-writer:%s" % t[2], {"writer_ops": t[2], "impl": t[3], "model": t[4], "how": how,
+                      "theorem": "correspondence A (responseWriter over a scripted underlying writer vs model/RWriter.v); "
+                                 "C15_writer_any_underlying no longer tied to the code"},
+                      "wrapper and model/RWriter.v disagree but the getters match what the client received  [%s]" % t[2],
+                      no_input_found=True)
+        k += 1
+        if k >= 10:
+            break
+    m = re.search(r"SUMMARY n=(\d+) ops=(\d+) mismatches=(\d+)", out)
+    if p.returncode != 0 or not m:
+        run.violation("harness-failed", {"out": out[-1500:], "raw": raw[-500:]}, "C15 writer-leg harness or driver failed", True)
+        return
+    kinds = {"short": 0, "partial_error": 0, "zero_error": 0, "wh_panic": 0}
+    for l in raw.splitlines()[:20000]:
+        if l.startswith("OPS"):
+            for o in l.split("\t")[1].split(";"):
+                f = o[1:].split(":")
+                if o[0] == "W":
+                    ln, pn, n_, e = map(int, f)
+                    if e and n_ > 0:
+                        kinds["partial_error"] += 1
+                    elif e:
+                        kinds["zero_error"] += 1
+                    elif n_ < ln:
+                        kinds["short"] += 1
+                    if pn:
+                        kinds["wh_panic"] += 1
+                elif int(f[1]):
+                    kinds["wh_panic"] += 1
+    run.coverage["writer_leg"] = {"sequences": int(m.group(1)), "wrapper_calls": int(m.group(2)),
+                                  "mismatches": int(m.group(3)), "property_failures": len(pf),
+                                  "op_kinds_in_first_20000_sequences": kinds,
+                                  "rule": "random sequences of 1..7 WriteHeader/Write calls over a scripted underlying writer "
+                                          "(short writes, n>0 with error, (0,err), panicking WriteHeader)"}
+
+
 def run(run):
     C.proof_leg(run, PROP, PROOFS, trusted_extra=[
         "hand model of httptest.ResponseRecorder, net/http.Error and http.DetectContentType (constant text/plain on "
@@ -219,6 +282,7 @@ def run(run):
         return
     stats, mism = {}, []
     witness_leg(run)
+    writer_leg(run)
     corpus = os.path.join(C.VERIF, "corpus", "C15", "programs.txt")
     if os.path.exists(corpus):
         mism += run_stream(["-mode", "corpus", "-file", corpus], run, stats)
@@ -300,6 +364,24 @@ def replay(path):
     """Re-run the program recorded in a replay file against the current /repo."""
     rp = json.load(open(path))
     ps = rp["replay"].get("prog")
+    wops = rp["replay"].get("writer_ops")
+    if wops:
+        okb, log = C.go_build(GO)
+        oko, log2 = C.ocaml_build(OCAML)
+        if not (okb and oko):
+            print(log, log2)
+            return 1
+        with tempfile.NamedTemporaryFile("w", suffix=".txt", delete=False) as f:
+            f.write(wops + "\n")
+        rc, raw = C.sh([os.path.join(C.BIN, "c15w"), "-file", f.name])
+        os.unlink(f.name)
+        p = subprocess.run([os.path.join(C.BIN, "c15w_model")], input=raw.encode(), stdout=subprocess.PIPE)
+        out = p.stdout.decode("utf-8", "replace")
+        print(raw + out)
+        if "PROPFAIL" in raw or "MISMATCH" in out:
+            print("VIOLATION property=C15 replay=%s" % path)
+            return 1
+        return 0
     if not ps:
         print("replay names a broken obligation, not an input:", rp.get("what"))
         return 1
